@@ -29,12 +29,16 @@ ASSUMPTIONS = ["M/dt counts as the integer k when |M/dt - k| <= 1e-9*max(1, M/dt
                "time to maturity compared within 16 ulp of (T-1)*dt"]
 PROBES = ["ratio_rounds_up", "ratio_rounds_down", "ratio_exact", "ratio_non_integer", "resim_by_other_derivative",
           "negative_index", "two_underliers", "hedge_grid", "feature_grid"]
-DTS = [1 / 250, 1 / 365, 1 / 252, 1 / 52, 1 / 12, 0.1, 0.05, 0.01, 0.004, 0.02, 1 / 360, 0.25]
+DTS = [1 / 250, 1 / 365, 1 / 252, 1 / 52, 1 / 12, 0.1, 0.05, 0.01, 0.004, 0.02, 1 / 360, 0.25,
+       # step sizes whose reciprocal is not an integer (weekly on an actual/365 clock, 1/365.25, ...)
+       7 / 365, 0.3, 1 / 365.25, 0.03, 2 / 250, 0.15, 1 / 3.5]
 
 
 def _maturity(rng, dt):
     k = rng.choice([1, 2, 3, 4, 5, 6, 7, 9, 10, 12, 15, 20, 21, 30, 47, 63])
-    how = rng.choice(["k*dt", "k*dt", "k/den", "sum", "frac", "dt*k"])
+    how = rng.choice(["k*dt", "k*dt", "k/den", "sum", "frac", "dt*k", "calendar"])
+    if how == "calendar":
+        return rng.choice([1.0, 0.5, 0.25, 1 / 12, 2.0, 30 / 365, 0.1]), how
     if how == "k*dt":
         return k * dt, how
     if how == "dt*k":
